@@ -81,7 +81,7 @@ def namesOKb (S : List (List Nat)) : Skel → Bool
   | .app f a => namesOKb S f && namesOKb S a
   | .bin _ l r => namesOKb S l && namesOKb S r
   | .un _ a => namesOKb S a
-  | .binder _ x body => NameOK S x && namesOKb S body
+  | .binder _ x body => NameOK S x && idShaped x && namesOKb S body
   | .ite c a b => namesOKb S c && namesOKb S a && namesOKb S b
 
 def handle (line : String) : String :=
